@@ -104,6 +104,12 @@ func PlayMulti(beh M, rng *rand.Rand, proj *Projection) ([][]M, error) {
 			return
 		}
 		// Parse a / Bind p<-a / Describe p / Execute p / Sync: same names on every connection
+		if (nid+I(beh, "_i"))%3 == 0 {
+			// ... and now and then the very same query text on every connection: each Parse consults the parser
+			// with its own connection's context
+			id = 900
+			col = []any{M{"name": "shared", "oid": 25}, M{"name": "w900", "oid": 25}}
+		}
 		st := M{"id": id, "cols": col, "oids": []any{}, "prog": []any{M{"op": "row", "cells": row(M{"c": "v"})}, M{"op": "complete", "tag": "M"}, M{"op": "ret", "r": "nil"}}}
 		send(c, M{"t": "P", "name": "a", "q": M{"id": id, "parse": "ok", "stmts": []any{st}}, "noids": 0}, true)
 		send(c, M{"t": "B", "portal": "p", "stmt": "a", "pfmt": []any{}, "params": []any{M{"null": false, "cls": "short"}}, "rfmt": []any{}}, true)
